@@ -28,6 +28,7 @@ def parseAction (s : String) : Option Action :=
     | "toggle-in" => some .toggleIn | "toggle-out" => some .toggleOut
     | "select-all" => some .selectAll | "deselect-all" => some .deselectAll | "toggle-all" => some .toggleAll
     | "clear-selection" => some .clearSelection | "toggle-sort" => some .toggleSort
+    | "exclude" => some .exclude | "exclude-multi" => some .excludeMulti
     | "accept" => some .accept | "accept-non-empty" => some .acceptNonEmpty | "accept-or-print-query" => some .acceptOrPrintQuery
     | "abort" => some .abort | "print-query" => some .printQuery
     | _ => none
@@ -91,7 +92,7 @@ def setup (ctx : Algo.Ctx) (optS lines steps : String) : Setup :=
     let layout := match o "layout" "default" with | "reverse" => Layout.reverse | "reverse-list" => .reverseList | _ => .default
     let texts := ls.toArray
     let top : Opts := {
-      multi := (o "multi" "0").toNat!, cycle := o "cycle" "0" == "1", layout, maxItems := rows - (o "fixed" "2").toNat!, total := ls.length,
+      multi := (o "multi" "0").toNat!, cycle := o "cycle" "0" == "1", layout, track := o "track" "0" == "1", maxItems := rows - (o "fixed" "2").toNat!, total := ls.length,
       isWord := isWord ctx, resultsOf,
       itemText := fun i => (Fzf.Filter.toChars (texts.getD i [])).1.toList }
     let nosort := o "nosort" "0" == "1"
@@ -141,6 +142,12 @@ def run (ctx : Algo.Ctx) (op : String) (args impl : List String) : Outcome :=
           if icode == toString code ∧ parseNatList iout != out ∧ ctx.prop == "C07" then
             specFail s!"[C07] printed {iout} but the selection / current line / query gives {showNatList out}"
           else if icode != toString code ∧ ctx.prop == "C07" then specFail s!"[C07] exit status {icode}, expected {code}"
+          else if ctx.prop == "C07" ∧ iobs != (if obs.isEmpty then "_" else "/".intercalate obs) ∧
+              ((iobs.splitOn "/").zip obs).any (fun (a, b) => a != b ∧ (a.splitOn "~").take 4 == (b.splitOn "~").take 4) then
+            -- same query, cursor and results, but the selection (which accept prints in this order) differs
+            match ((iobs.splitOn "/").zip obs).zipIdx.find? (fun ((a, b), _) => a != b) with
+            | some ((a, b), k) => specFail s!"[C07] after step {k + 1} the selection, in the order accept prints it, is {(a.splitOn "~").getD 4 "?"} but the actions prescribe {(b.splitOn "~").getD 4 "?"}"
+            | none => specOk
           else if ctx.prop == "C09" ∧ iobs != (if obs.isEmpty then "_" else "/".intercalate obs) then
             -- first differing step
             let pairs := (iobs.splitOn "/").zip obs
